@@ -42,6 +42,19 @@ def log(*a):
     print(*a, flush=True)
 
 
+def scratch_base(name):
+    """Scratch space for replay worlds: tmpfs when available (sqlite fsyncs)."""
+    base = os.environ.get("VERIF_SCRATCH")
+    if not base:
+        base = "/dev/shm" if os.path.isdir("/dev/shm") and os.access("/dev/shm", os.W_OK) else WORK
+    d = os.path.join(base, "verif-scratch-%s-%d" % (name, os.getpid()))
+    shutil.rmtree(d, ignore_errors=True)
+    os.makedirs(d, exist_ok=True)
+    import atexit
+    atexit.register(lambda: shutil.rmtree(d, ignore_errors=True))
+    return d
+
+
 def workdir(name):
     d = os.path.join(WORK, name)
     if os.path.exists(d):
@@ -150,7 +163,7 @@ def run_tlc(module, cfg_path, name, timeout_s=900, workers=None, simulate=None,
         m = re.search(r"Action property (\w+) is violated", line)
         if m:
             res.violated.append(m.group(1))
-        m = re.match(r"^<(\w+) line \d+, col \d+ to line \d+, col \d+ of module (\w+)>: (\d+):(\d+)", line)
+        m = re.match(r"^<(\w+) line \d+, col \d+ to line \d+, col \d+ of module (\w+)(?: \([\d ]+\))?>: (\d+):(\d+)", line)
         if m:
             res.coverage[m.group(1)] = (int(m.group(3)), int(m.group(4)))
     rc = proc.wait()
@@ -326,3 +339,114 @@ def finish(prop, violations, known_hits):
             log("  " + json.dumps(v.get("summary", v))[:600])
         return 1
     return 0
+
+
+# ---------------------------------------------------------------------------
+# Edge graph and transition tour
+
+class Graph:
+    """State graph rebuilt from TLC's EDGE lines."""
+
+    def __init__(self):
+        self.key_of = {}       # canonical json -> node id
+        self.nodes = []        # node id -> state object
+        self.out = []          # node id -> list of edge ids
+        self.edges = []        # (src, dst, edge object without from)
+        self._seen = set()
+
+    def node(self, st):
+        k = json.dumps(st, sort_keys=True)
+        n = self.key_of.get(k)
+        if n is None:
+            n = len(self.nodes)
+            self.key_of[k] = n
+            self.nodes.append(st)
+            self.out.append([])
+        return n
+
+    def add(self, e):
+        s = self.node(e["from"])
+        d = self.node(e["to"])
+        ek = (s, json.dumps([e.get("act"), e.get("args"), e.get("last")], sort_keys=True), d)
+        if ek in self._seen:
+            return
+        self._seen.add(ek)
+        step = {k: v for k, v in e.items() if k != "from"}
+        self.out[s].append(len(self.edges))
+        self.edges.append((s, d, step))
+
+
+def transition_tour(g, init_state, max_len=150, rng=None, edge_filter=None, limit_paths=None):
+    """Paths from init that together cover every (filtered) edge at least once."""
+    init = g.node(init_state)
+    want = set(i for i in range(len(g.edges)) if edge_filter is None or edge_filter(g.edges[i][2]))
+    # distinct-successor adjacency for navigation
+    succ = [dict() for _ in g.nodes]
+    for i, (s, d, _) in enumerate(g.edges):
+        if s != d and d not in succ[s]:
+            succ[s][d] = i
+    uncovered_at = [0] * len(g.nodes)
+    for i in want:
+        uncovered_at[g.edges[i][0]] += 1
+
+    def nearest(src, depth_cap):
+        # BFS over distinct successors to a node with uncovered edges
+        if uncovered_at[src] > 0:
+            return []
+        prev = {src: None}
+        frontier = [src]
+        depth = 0
+        while frontier and depth < depth_cap:
+            nxt = []
+            for u in frontier:
+                for v, ei in succ[u].items():
+                    if v in prev:
+                        continue
+                    prev[v] = (u, ei)
+                    if uncovered_at[v] > 0:
+                        path = []
+                        cur = v
+                        while prev[cur] is not None:
+                            u2, e2 = prev[cur]
+                            path.append(e2)
+                            cur = u2
+                        return list(reversed(path))
+                    nxt.append(v)
+            frontier = nxt
+            depth += 1
+        return None
+
+    paths = []
+    remaining = set(want)
+    while remaining:
+        cur = init
+        path = []
+        progressed = False
+        while len(path) < max_len:
+            cand = [i for i in g.out[cur] if i in remaining]
+            if cand:
+                # prefer edges that change the state last, so that self-loops are
+                # exhausted while we are here
+                loops = [i for i in cand if g.edges[i][1] == cur]
+                pick = loops[0] if loops else (rng.choice(cand) if rng else cand[0])
+                remaining.discard(pick)
+                uncovered_at[cur] -= 1
+                path.append(pick)
+                cur = g.edges[pick][1]
+                progressed = True
+                continue
+            nav = nearest(cur, 64 if not path else 3)
+            if nav is None or len(path) + len(nav) >= max_len:
+                break
+            if not nav:
+                break
+            for ei in nav:
+                path.append(ei)
+                cur = g.edges[ei][1]
+        if not progressed:
+            # unreachable leftovers (should not happen: every edge source is reachable)
+            break
+        paths.append(path)
+        if limit_paths and len(paths) >= limit_paths:
+            break
+    return paths, len(want) - len(remaining), len(want)
